@@ -44,6 +44,9 @@ PROJ = {
     "pkg/sibling.py": "def double(x):\n    return x * 2\n",
     "ignored_dir/ig.py": "from core import compute, Shape\n\nz = compute(5)\nq = Shape(1).area()\n",
     "notes.txt": "compute and Shape are mentioned here\n",
+    # ignored through a '//' pattern (any number of folders in between)
+    "gen/stubs0.py": "from core import compute\n\ng0 = compute(7)\n",
+    "gen/v1/internal/stubs.py": "from core import compute, Shape\n\ng1 = compute(8)\ng2 = Shape(2).area()\n",
 }
 EXT = {
     "extmod.py": "from extpkg import helper\n\n\ndef ext_func(v):\n    return helper(v)\n",
@@ -217,7 +220,7 @@ class Universe:
         self.fs = simfs.SimFS(self.root, self.clock, stamp=False)
         self.prefs = {
             "python_path": [self.ext],
-            "ignored_resources": ["*.pyc", "*~", ROPEFOLDER, "ignored_dir"],
+            "ignored_resources": ["*.pyc", "*~", ROPEFOLDER, "ignored_dir", "gen//*.py"],
             "automatic_soa": bool(swarm.get("soa", True)),
             "save_history": True,
             "save_objectdb": bool(swarm.get("save_objectdb", False)),
@@ -520,7 +523,7 @@ class EffectsEngine(Engine):
     def gen_request(self, rng, u, swarm, step_no=0):
         t = kernel.snapshot(u.root)
         pyfiles = sorted(p for p, v in t.items() if isinstance(v, bytes) and p.endswith(".py") and not p.startswith(ROPEFOLDER))
-        inproj = [p for p in pyfiles if not p.startswith("ignored_dir")]
+        inproj = [p for p in pyfiles if not p.startswith("ignored_dir") and not p.startswith("gen/")]
         kinds = (["rename"] * 6 + ["rename_module"] * 2 + ["move_global"] * 2 + ["move_module", "move_method"] +
                  ["extract_method"] * 2 + ["extract_variable"] * 2 + ["inline"] * 2 + ["change_signature"] * 2 +
                  ["introduce_parameter", "introduce_factory", "encapsulate_field", "local_to_field", "method_object",
@@ -838,7 +841,7 @@ class EffectsEngine(Engine):
                 # a request that itself names an ignored or out-of-project module (as its
                 # target, destination or in resources=) asked for it; only unrequested ones count
                 named = [st.get("path", "")] + list(st.get("resources") or []) + [str(st.get("dest", "")), str(st.get("goal", ""))]
-                asked_ignored = any(x.startswith("ignored_dir") for x in named)
+                asked_ignored = any(x.startswith("ignored_dir") or x.startswith("gen/") for x in named)
                 asked_ext = any(x.startswith("ext:") for x in named)
                 bad_ann = [b for b in bad_ann if not (b.startswith("ignored:") and asked_ignored)
                            and not (b.startswith("out-of-project:") and asked_ext)]
@@ -894,7 +897,7 @@ class EffectsEngine(Engine):
                     if rel == ROPEFOLDER or rel.startswith(ROPEFOLDER + "/"):
                         problems.append(("rope_folder_written_by_do", pth))
                         continue
-                    if rel.startswith("ignored_dir"):
+                    if rel.startswith("ignored_dir") or (rel.startswith("gen/") and rel.endswith(".py")):
                         if not asked_ignored:
                             problems.append(("ignored_resource_modified", pth))
                         continue
